@@ -137,6 +137,53 @@ func genWorkload(r *rand.Rand, ntasks int) *workload {
 	w.Pre = append(w.Pre, vkit.SnapEntry{ID: "TestPre - 2", Body: "untouched last"})
 	w.Seed["TestPre - 2"] = "untouched last"
 	r.Shuffle(len(w.Pre), func(i, j int) { w.Pre[i], w.Pre[j] = w.Pre[j], w.Pre[i] })
+	if r.IntN(4) == 0 {
+		// two tasks update neighbouring entries, and the new value of the first has - on the
+		// very line where the second entry's header stands now - a line equal to that header
+		type ref struct {
+			task, call int
+			id         string
+		}
+		var ups []ref
+		for ti, t := range w.Tasks {
+			ord := 0
+			for ci, cl := range t.Calls {
+				ord++
+				if cl.Kind == "update" && cl.API == "snap" && t.Execs == 1 {
+					ups = append(ups, ref{ti, ci, vkit.SlotID(t.Test, ord)})
+				}
+			}
+		}
+		for x := 0; x < len(ups); x++ {
+			for y := 0; y < len(ups); y++ {
+				a, b := ups[x], ups[y]
+				if a.task == b.task {
+					continue
+				}
+				pa, pb := -1, -1
+				for k, e := range w.Pre {
+					if e.ID == a.id {
+						pa = k
+					}
+					if e.ID == b.id {
+						pb = k
+					}
+				}
+				if pa < 0 || pb < 0 || strings.Contains(w.Pre[pa].Body, "\n") {
+					continue
+				}
+				// move b's entry right behind a's
+				eb := w.Pre[pb]
+				w.Pre = append(w.Pre[:pb], w.Pre[pb+1:]...)
+				if pb < pa {
+					pa--
+				}
+				w.Pre = append(w.Pre[:pa+1], append([]vkit.SnapEntry{eb}, w.Pre[pa+1:]...)...)
+				w.Tasks[a.task].Calls[a.call].Val = "grew to five lines\nsecond\nthird\n[" + b.id + "]\nfifth"
+				x, y = len(ups), len(ups)
+			}
+		}
+	}
 	w.Link = r.IntN(2) == 0
 	w.FailedWrite = r.IntN(4) == 0
 	return w
